@@ -50,7 +50,7 @@ Definition step_ok (g : gst) (s : cst) (pc : nat) (io : instr) (x : dp) : Prop :
                    (forall j, io = (I_Put, OExpr j) -> tgt g s j (0, 0))
   end.
 
-Definition ginv (g : gst) (s : cst) : Prop :=
+Definition ginv0 (g : gst) (s : cst) : Prop :=
   length (gd g) = length (ci s) /\
   cj s <> [] /\
   (forall k T, nth_error (cj s) k = Some T -> T <= IL s /\ (k = 0 -> T = ilo) /\ (0 < k -> T = 0 \/ ilo < T)) /\
@@ -133,13 +133,13 @@ Proof.
 Qed.
 End Mono.
 
-Lemma ginv_bound : forall g s, ginv g s -> forall k T, nth_error (cj s) k = Some T -> T <= IL s.
+Lemma ginv0_bound : forall g s, ginv0 g s -> forall k T, nth_error (cj s) k = Some T -> T <= IL s.
 Proof. intros g s [_ [_ [He _]]] k T H. apply (He k T H). Qed.
 
 (* emitting an instruction whose own step is fine in the new state *)
-Lemma ginv_emit : forall g s io m out,
-  ginv g s -> step_ok (gemit g out) (emit s io m) (IL s) io (gcur g) ->
-  ginv (gemit g out) (emit s io m).
+Lemma ginv0_emit : forall g s io m out,
+  ginv0 g s -> step_ok (gemit g out) (emit s io m) (IL s) io (gcur g) ->
+  ginv0 (gemit g out) (emit s io m).
 Proof.
   intros g s io m out Hg Hstep. pose proof Hg as [Hlen [Hne [He [Hs [Hj H0]]]]].
   assert (Hdat : forall a, a - ilo <= length (gd g) -> dat (gemit g out) a = dat g a) by (intros; apply dat_gemit_old; assumption).
@@ -160,7 +160,7 @@ Proof.
   - eapply tgt_mono; eauto.
 Qed.
 
-Lemma ginv_new_hole : forall g s, ginv g s -> ginv g (new_jump s 0).
+Lemma ginv0_new_hole : forall g s, ginv0 g s -> ginv0 g (new_jump s 0).
 Proof.
   intros g s Hg. pose proof Hg as [Hlen [Hne [He [Hs [Hj H0]]]]].
   assert (Hdat : forall a, a - ilo <= length (gd g) -> dat g a = dat g a) by reflexivity.
@@ -181,7 +181,7 @@ Proof.
   - eapply (tgt_mono g g s (new_jump s 0)); eauto using incl_refl.
 Qed.
 
-Lemma ginv_open_add : forall g s j y, ginv g s -> ginv (gopen_add g j y) s.
+Lemma ginv0_open_add : forall g s j y, ginv0 g s -> ginv0 (gopen_add g j y) s.
 Proof.
   intros g s j y Hg. pose proof Hg as [Hlen [Hne [He [Hs [Hj H0]]]]].
   assert (Hb : forall k T, nth_error (cj s) k = Some T -> T <= IL s) by (intros k T H; apply (He k T H)).
@@ -193,8 +193,8 @@ Proof.
   - eapply (tgt_mono g (gopen_add g j y) s s); eauto.
 Qed.
 
-Lemma ginv_new_join : forall g s, ginv g s -> ilo < IL s ->
-  ginv (gjoin_add g (JL s) (gcur g)) (new_jump s (IL s)).
+Lemma ginv0_new_join : forall g s, ginv0 g s -> ilo < IL s ->
+  ginv0 (gjoin_add g (JL s) (gcur g)) (new_jump s (IL s)).
 Proof.
   intros g s Hg Hil. pose proof Hg as [Hlen [Hne [He [Hs [Hj H0]]]]].
   set (g' := gjoin_add g (JL s) (gcur g)). set (s' := new_jump s (IL s)).
@@ -231,10 +231,10 @@ Qed.
 
 
 (* ---- the emission patterns of the compiler ---- *)
-Lemma ginv_IL : forall g s, ginv g s -> IL s = ilo + length (gd g).
+Lemma ginv0_IL : forall g s, ginv0 g s -> IL s = ilo + length (gd g).
 Proof. intros g s [Hlen _]. unfold il. lia. Qed.
 
-Lemma tgt_after_emit : forall g s io m out j y, ginv g s -> tgt g s j y -> tgt (gemit g out) (emit s io m) j y.
+Lemma tgt_after_emit : forall g s io m out j y, ginv0 g s -> tgt g s j y -> tgt (gemit g out) (emit s io m) j y.
 Proof.
   intros g s io m out j y Hg Ht. pose proof Hg as [Hlen [_ [He _]]].
   eapply (tgt_mono g (gemit g out) s (emit s io m)); eauto using incl_refl.
@@ -242,16 +242,16 @@ Proof.
   - intros k T H. apply (He k T H).
 Qed.
 
-Lemma ginv_emit_eff : forall g s io m e r v,
-  ginv g s -> gcur g = (r, v) -> effect io = Some e -> e_pop e <= r -> e_vdown e <= v ->
+Lemma ginv0_emit_eff : forall g s io m e r v,
+  ginv0 g s -> gcur g = (r, v) -> effect io = Some e -> e_pop e <= r -> e_vdown e <= v ->
   (forall j, io = (I_Put, OExpr j) -> tgt g s j (0, 0)) ->
-  ginv (gemit g (r - e_pop e + e_push e, v - e_vdown e + e_vup e)) (emit s io m).
+  ginv0 (gemit g (r - e_pop e + e_push e, v - e_vdown e + e_vup e)) (emit s io m).
 Proof.
-  intros g s io m e r v Hg Hc He Hp Hv Hx. apply ginv_emit; [exact Hg|].
+  intros g s io m e r v Hg Hc He Hp Hv Hx. apply ginv0_emit; [exact Hg|].
   rewrite Hc. unfold step_ok.
   assert (Hnext : dat (gemit g (r - e_pop e + e_push e, v - e_vdown e + e_vup e)) (S (IL s)) =
                   Some (r - e_pop e + e_push e, v - e_vdown e + e_vup e)).
-  { rewrite (ginv_IL g s Hg). replace (S (ilo + length (gd g))) with (ilo + S (length (gd g))) by lia. apply dat_gemit_next. }
+  { rewrite (ginv0_IL g s Hg). replace (S (ilo + length (gd g))) with (ilo + S (length (gd g))) by lia. apply dat_gemit_next. }
   assert (Hdef : exists e0, effect io = Some e0 /\ e_pop e0 <= r /\ e_vdown e0 <= v /\
             dat (gemit g (r - e_pop e + e_push e, v - e_vdown e + e_vup e)) (S (IL s)) =
               Some (r - e_pop e0 + e_push e0, v - e_vdown e0 + e_vup e0) /\
@@ -272,71 +272,71 @@ Proof.
   rewrite nth_error_app2 by lia. rewrite Nat.sub_diag. reflexivity.
 Qed.
 
-Lemma ginv_jl_pos : forall g s, ginv g s -> jlo < JL s.
+Lemma ginv0_jl_pos : forall g s, ginv0 g s -> jlo < JL s.
 Proof. intros g s [_ [Hne _]]. unfold jl. destruct (cj s); [congruence | cbn; lia]. Qed.
 
 (* a conditional jump through a fresh placeholder *)
-Lemma ginv_emit_jumpif : forall g s i m r v,
-  ginv g s -> gcur g = (r, v) -> 1 <= r -> (i = I_JumpIfTrue \/ i = I_JumpIfFalse) ->
-  ginv (gemit (gopen_add g (JL s) (r - 1, v)) (r - 1, v)) (emit (new_jump s 0) (i, ONum (JL s)) m).
+Lemma ginv0_emit_jumpif : forall g s i m r v,
+  ginv0 g s -> gcur g = (r, v) -> 1 <= r -> (i = I_JumpIfTrue \/ i = I_JumpIfFalse) ->
+  ginv0 (gemit (gopen_add g (JL s) (r - 1, v)) (r - 1, v)) (emit (new_jump s 0) (i, ONum (JL s)) m).
 Proof.
   intros g s i m r v Hg Hc Hr Hi.
-  pose proof (ginv_open_add _ _ (JL s) (r - 1, v) (ginv_new_hole _ _ Hg)) as Hg1.
-  apply ginv_emit; [exact Hg1|]. cbn [gopen_add gcur]. rewrite Hc.
+  pose proof (ginv0_open_add _ _ (JL s) (r - 1, v) (ginv0_new_hole _ _ Hg)) as Hg1.
+  apply ginv0_emit; [exact Hg1|]. cbn [gopen_add gcur]. rewrite Hc.
   set (g1 := gopen_add g (JL s) (r - 1, v)) in *.
   assert (Hnext : dat (gemit g1 (r - 1, v)) (S (IL (new_jump s 0))) = Some (r - 1, v)).
-  { rewrite (ginv_IL g1 _ Hg1). replace (S (ilo + length (gd g1))) with (ilo + S (length (gd g1))) by lia. apply dat_gemit_next. }
+  { rewrite (ginv0_IL g1 _ Hg1). replace (S (ilo + length (gd g1))) with (ilo + S (length (gd g1))) by lia. apply dat_gemit_next. }
   assert (Ht : tgt (gemit g1 (r - 1, v)) (emit (new_jump s 0) (i, ONum (JL s)) m) (JL s) (r - 1, v)).
-  { apply tgt_after_emit; [exact Hg1|]. apply tgt_hole; [apply (ginv_jl_pos g s Hg) | apply hole_entry | left; reflexivity]. }
+  { apply tgt_after_emit; [exact Hg1|]. apply tgt_hole; [apply (ginv0_jl_pos g s Hg) | apply hole_entry | left; reflexivity]. }
   unfold step_ok. cbn [fst snd]. destruct Hi; subst i; exists (JL s);
     (split; [reflexivity | split; [exact Hr | split; [exact Hnext | exact Ht]]]).
 Qed.
 
 (* && / || through a fresh placeholder: falls through with the boolean, jumps without *)
-Lemma ginv_emit_logical : forall g s i m r v,
-  ginv g s -> gcur g = (r, v) -> 1 <= r -> (i = I_And \/ i = I_Or) ->
-  ginv (gemit (gopen_add g (JL s) (r - 1, v)) (r, v)) (emit (new_jump s 0) (i, ONum (JL s)) m).
+Lemma ginv0_emit_logical : forall g s i m r v,
+  ginv0 g s -> gcur g = (r, v) -> 1 <= r -> (i = I_And \/ i = I_Or) ->
+  ginv0 (gemit (gopen_add g (JL s) (r - 1, v)) (r, v)) (emit (new_jump s 0) (i, ONum (JL s)) m).
 Proof.
   intros g s i m r v Hg Hc Hr Hi.
-  pose proof (ginv_open_add _ _ (JL s) (r - 1, v) (ginv_new_hole _ _ Hg)) as Hg1.
-  apply ginv_emit; [exact Hg1|]. cbn [gopen_add gcur]. rewrite Hc.
+  pose proof (ginv0_open_add _ _ (JL s) (r - 1, v) (ginv0_new_hole _ _ Hg)) as Hg1.
+  apply ginv0_emit; [exact Hg1|]. cbn [gopen_add gcur]. rewrite Hc.
   set (g1 := gopen_add g (JL s) (r - 1, v)) in *.
   assert (Hnext : dat (gemit g1 (r, v)) (S (IL (new_jump s 0))) = Some (r, v)).
-  { rewrite (ginv_IL g1 _ Hg1). replace (S (ilo + length (gd g1))) with (ilo + S (length (gd g1))) by lia. apply dat_gemit_next. }
+  { rewrite (ginv0_IL g1 _ Hg1). replace (S (ilo + length (gd g1))) with (ilo + S (length (gd g1))) by lia. apply dat_gemit_next. }
   assert (Ht : tgt (gemit g1 (r, v)) (emit (new_jump s 0) (i, ONum (JL s)) m) (JL s) (r - 1, v)).
-  { apply tgt_after_emit; [exact Hg1|]. apply tgt_hole; [apply (ginv_jl_pos g s Hg) | apply hole_entry | left; reflexivity]. }
+  { apply tgt_after_emit; [exact Hg1|]. apply tgt_hole; [apply (ginv0_jl_pos g s Hg) | apply hole_entry | left; reflexivity]. }
   unfold step_ok. cbn [fst snd]. destruct Hi; subst i; exists (JL s);
     (split; [reflexivity | split; [exact Hr | split; [exact Hnext | exact Ht]]]).
 Qed.
 
 (* an expression value through a fresh placeholder: its body will start at (0, 0) *)
-Lemma ginv_emit_nested : forall g s m r v,
-  ginv g s -> gcur g = (r, v) ->
-  ginv (gemit (gopen_add g (JL s) (0, 0)) (r + 1, v)) (emit (new_jump s 0) (I_Put, OExpr (JL s)) m).
+Lemma ginv0_emit_nested : forall g s m r v,
+  ginv0 g s -> gcur g = (r, v) ->
+  ginv0 (gemit (gopen_add g (JL s) (0, 0)) (r + 1, v)) (emit (new_jump s 0) (I_Put, OExpr (JL s)) m).
 Proof.
   intros g s m r v Hg Hc.
-  pose proof (ginv_open_add _ _ (JL s) (0, 0) (ginv_new_hole _ _ Hg)) as Hg1.
+  pose proof (ginv0_open_add _ _ (JL s) (0, 0) (ginv0_new_hole _ _ Hg)) as Hg1.
   replace (r + 1, v) with (r - e_pop (mkEff 0 1 0 0) + e_push (mkEff 0 1 0 0), v - e_vdown (mkEff 0 1 0 0) + e_vup (mkEff 0 1 0 0))
     by (cbn; f_equal; lia).
-  apply ginv_emit_eff; auto; cbn; try lia.
+  apply ginv0_emit_eff; auto; cbn; try lia.
   intros j Hj. inversion Hj; subst.
-  apply tgt_hole; [apply (ginv_jl_pos g s Hg) | apply hole_entry | left; reflexivity].
+  apply tgt_hole; [apply (ginv0_jl_pos g s Hg) | apply hole_entry | left; reflexivity].
 Qed.
 
-Lemma ginv_emit_jumpto : forall g s j m out,
-  ginv g s -> tgt g s j (gcur g) -> ginv (gemit g out) (emit s (I_JumpTo, ONum j) m).
+Lemma ginv0_emit_jumpto : forall g s j m out,
+  ginv0 g s -> tgt g s j (gcur g) -> ginv0 (gemit g out) (emit s (I_JumpTo, ONum j) m).
 Proof.
-  intros g s j m out Hg Ht. apply ginv_emit; [exact Hg|].
+  intros g s j m out Hg Ht. apply ginv0_emit; [exact Hg|].
   destruct (gcur g) as [r v] eqn:Hc. unfold step_ok. cbn [fst snd]. exists j. split; [reflexivity|].
   apply tgt_after_emit; assumption.
 Qed.
 
-Lemma ginv_emit_end : forall g s m out,
-  ginv g s -> gcur g = (1, 0) -> ginv (gemit g out) (emit s (I_EndExpression, ONone) m).
-Proof. intros g s m out Hg Hc. apply ginv_emit; [exact Hg|]. rewrite Hc. reflexivity. Qed.
+Lemma ginv0_emit_end : forall g s m out,
+  ginv0 g s -> gcur g = (1, 0) -> ginv0 (gemit g out) (emit s (I_EndExpression, ONone) m).
+Proof. intros g s m out Hg Hc. apply ginv0_emit; [exact Hg|]. rewrite Hc. reflexivity. Qed.
 
 (* the entry of the containing expression has depth (0, 0) *)
-Lemma cont_tgt : forall g s c, ginv g s -> cont_ok init s c -> tgt g s c (0, 0).
+Lemma cont_tgt0 : forall g s c, ginv0 g s -> cont_ok init s c -> tgt g s c (0, 0).
 Proof.
   intros g s c Hg [Hc|[k Hk]]; [subst; destruct Hg as [_ [_ [_ [_ [_ H0]]]]]; exact H0|].
   destruct Hg as [Hlen [_ [_ [Hs _]]]].
@@ -346,6 +346,85 @@ Proof.
   destruct Hs as [e [_ [_ [_ [_ Hx]]]]]. apply Hx. reflexivity.
 Qed.
 
+
+
+(* ---- the full invariant: placeholders are registered once, below the table's end ---- *)
+Definition open_ok (g : gst) (s : cst) : Prop :=
+  (forall j y, In (j, y) (gopen g) -> j < JL s) /\
+  (forall j y y', In (j, y) (gopen g) -> In (j, y') (gopen g) -> y = y').
+
+Definition ginv (g : gst) (s : cst) : Prop := ginv0 g s /\ open_ok g s.
+
+Lemma open_ok_emit : forall g s out io m, open_ok g s -> open_ok (gemit g out) (emit s io m).
+Proof. intros g s out io m H. exact H. Qed.
+
+Lemma open_ok_hole : forall g s y, open_ok g s -> open_ok (gopen_add g (JL s) y) (new_jump s 0).
+Proof.
+  intros g s y [Hb Hf]. split.
+  - intros j y0 [H|H]; rewrite jl_new_jump; [inversion H; lia | specialize (Hb _ _ H); lia].
+  - intros j y1 y2 [H1|H1] [H2|H2].
+    + congruence.
+    + inversion H1; subst. specialize (Hb _ _ H2). lia.
+    + inversion H2; subst. specialize (Hb _ _ H1). lia.
+    + eapply Hf; eauto.
+Qed.
+
+Lemma open_ok_join : forall g s j y x, open_ok g s -> open_ok (gjoin_add g j y) (new_jump s x).
+Proof. intros g s j y x [Hb Hf]. split; [|exact Hf]. intros j0 y0 H. rewrite jl_new_jump. specialize (Hb _ _ H). lia. Qed.
+
+Lemma ginv_IL : forall g s, ginv g s -> IL s = ilo + length (gd g).
+Proof. intros g s [H _]. apply ginv0_IL; exact H. Qed.
+Lemma ginv_jl_pos : forall g s, ginv g s -> jlo < JL s.
+Proof. intros g s [H _]. eapply ginv0_jl_pos; exact H. Qed.
+Lemma cont_tgt : forall g s c, ginv g s -> cont_ok init s c -> tgt g s c (0, 0).
+Proof. intros g s c [H _]. apply cont_tgt0; exact H. Qed.
+
+(* an ordinary instruction *)
+Lemma step_eff : forall g s io m e r v r' v',
+  ginv g s -> gcur g = (r, v) -> effect io = Some e -> e_pop e <= r -> e_vdown e <= v ->
+  r' = r - e_pop e + e_push e -> v' = v - e_vdown e + e_vup e ->
+  (forall j, io = (I_Put, OExpr j) -> tgt g s j (0, 0)) ->
+  ginv (gemit g (r', v')) (emit s io m).
+Proof.
+  intros g s io m e r v r' v' [Hg Ho] Hc He Hp Hv Hr' Hv' Hx. subst r' v'.
+  split; [eapply ginv0_emit_eff; eauto | apply open_ok_emit; exact Ho].
+Qed.
+
+Lemma step_jumpif : forall g s i m r v,
+  ginv g s -> gcur g = (r, v) -> 1 <= r -> (i = I_JumpIfTrue \/ i = I_JumpIfFalse) ->
+  ginv (gemit (gopen_add g (JL s) (r - 1, v)) (r - 1, v)) (emit (new_jump s 0) (i, ONum (JL s)) m).
+Proof.
+  intros g s i m r v [Hg Ho] Hc Hr Hi.
+  split; [apply ginv0_emit_jumpif; auto | apply open_ok_emit, open_ok_hole; exact Ho].
+Qed.
+
+Lemma step_logical : forall g s i m r v,
+  ginv g s -> gcur g = (r, v) -> 1 <= r -> (i = I_And \/ i = I_Or) ->
+  ginv (gemit (gopen_add g (JL s) (r - 1, v)) (r, v)) (emit (new_jump s 0) (i, ONum (JL s)) m).
+Proof.
+  intros g s i m r v [Hg Ho] Hc Hr Hi.
+  split; [apply ginv0_emit_logical; auto | apply open_ok_emit, open_ok_hole; exact Ho].
+Qed.
+
+Lemma step_nested : forall g s m r v,
+  ginv g s -> gcur g = (r, v) ->
+  ginv (gemit (gopen_add g (JL s) (0, 0)) (r + 1, v)) (emit (new_jump s 0) (I_Put, OExpr (JL s)) m).
+Proof.
+  intros g s m r v [Hg Ho] Hc.
+  split; [apply ginv0_emit_nested; auto | apply open_ok_emit, open_ok_hole; exact Ho].
+Qed.
+
+Lemma step_jumpto : forall g s j m out,
+  ginv g s -> tgt g s j (gcur g) -> ginv (gemit g out) (emit s (I_JumpTo, ONum j) m).
+Proof. intros g s j m out [Hg Ho] Ht. split; [apply ginv0_emit_jumpto; auto | apply open_ok_emit; exact Ho]. Qed.
+
+Lemma step_end : forall g s m out,
+  ginv g s -> gcur g = (1, 0) -> ginv (gemit g out) (emit s (I_EndExpression, ONone) m).
+Proof. intros g s m out [Hg Ho] Hc. split; [apply ginv0_emit_end; auto | apply open_ok_emit; exact Ho]. Qed.
+
+Lemma step_join : forall g s, ginv g s -> ilo < IL s ->
+  ginv (gjoin_add g (JL s) (gcur g)) (new_jump s (IL s)).
+Proof. intros g s [Hg Ho] Hil. split; [apply ginv0_new_join; auto | apply open_ok_join; exact Ho]. Qed.
 
 (* ---- ghost facts about registered bodies and arms ---- *)
 Definition end_g (g : gst) (e : dp) (ends : list instr) : Prop :=
